@@ -111,7 +111,12 @@ def round_shim(x, ndigits=None):
         if c is not None:
             return _real_round(_real_float(c)) if ndigits is None else _real_round(_real_float(c), ndigits)
         if ndigits is None:
-            return SInt(_UF_ROUND0(x.e))
+            # exact round-half-to-even of the rational value (a Python float that is not exactly representable
+            # may round a tie differently: stated in DESIGN as 'floats are exact rationals')
+            f = z3.ToInt(x.e)
+            frac = x.e - z3.ToReal(f)
+            return SInt(z3.If(frac < z3.RealVal("1/2"), f, z3.If(frac > z3.RealVal("1/2"), f + 1,
+                                                                z3.If(f % 2 == 0, f, f + 1))))
         return SReal(_UF_ROUNDN(x.e, z3.IntVal(ndigits)))
     if isinstance(x, SInt):
         if ndigits is None or ndigits >= 0:
